@@ -64,6 +64,11 @@ func (t *Table) AddColumn(col Column) {
 		t.Columns[id] = col
 
 	default:
+		if col.Action == MigrateModifyAction && col.CurrentAttr.MysqlType != nil {
+			// MySQL MODIFY COLUMN replaces the definition; its options arrive with the column definition that follows
+			t.Columns[id].CurrentAttr.Options = nil
+		}
+
 		t.Columns[id].CurrentAttr.Options = append(t.Columns[id].CurrentAttr.Options, col.CurrentAttr.Options...)
 
 		if size := len(t.Columns[id].CurrentAttr.Options); size > 0 {
